@@ -18,7 +18,9 @@ theorem jbm_finish (nd : Node) (a : A) (nx nx' : Nat) (h : JBm nd a nx) (i : Rid
   obtain ⟨hJ', _⟩ := J_finish nd a [] i o p grp inbox (by simpa using hJ) hg
   have hJ2 := hJ' ops hp
   have hX : (⟨p.id, i, .cells []⟩ : Req) ∈ a.reqs := by have := h.j.th i _ hg; simpa [ThOK] using this
-  obtain ⟨_, hsub⟩ := program_ok nd.kind p o ops i i a.reqs hp hX
+  have hplt : p.id < nx := h.bnd p.id (List.mem_append_left _ (mem_ids_of_mem hX (by simp [idsR])))
+  obtain ⟨_, hsub, _⟩ := program_ok nd.kind p o ops i i a.reqs hp hX
+    (Or.inl (fun x hx e => by rw [e] at hx; exact Nat.lt_irrefl _ (Nat.lt_of_lt_of_le hplt (hfr _ hx).1)))
   refine ⟨by simp [Node.step, hg, hp], hJ2, ?_, h.np⟩
   intro k hk
   rw [List.mem_append] at hk
@@ -31,6 +33,28 @@ theorem jbm_finish (nd : Node) (a : A) (nx nx' : Nat) (h : JBm nd a nx) (i : Rid
       · exact Nat.lt_of_lt_of_le
           (h.bnd k (List.mem_append_right _ (mem_thread _ i _ hg k (by simp [tids, h1])))) hle
       · exact (hfr k (hsub.subset h1)).2
+
+/-- the action of thread `i` returns its input packet: nothing new is introduced -/
+theorem jbm_finish_same (nd : Node) (a : A) (nx : Nat) (h : JBm nd a nx) (i : Rid) (p : Pkt) (grp inbox : List Pkt)
+    (hg : getThread nd.threads i = some { inbox := inbox, pc := .action p grp }) (o : Outcome) (ops : List Op)
+    (hp : program nd.kind p o = some ops) (hs : introS (.finish i o) = [p.id]) :
+    Node.step nd (.finish i o) =
+      some ({ nd with threads := setThread nd.threads i { inbox := inbox, pc := .emit ops } }, []) ∧
+    JBm { nd with threads := setThread nd.threads i { inbox := inbox, pc := .emit ops } } a nx ∧
+    linkTargets ops = [] := by
+  obtain ⟨hJ', _⟩ := J_finish_same nd a [] i o p grp inbox h.j hg hs
+  have hJ2 := hJ' ops hp
+  have hX : (⟨p.id, i, .cells []⟩ : Req) ∈ a.reqs := by have := h.j.th i _ hg; simpa [ThOK] using this
+  obtain ⟨_, _, hlt⟩ := program_ok nd.kind p o ops i i a.reqs hp hX (Or.inr hs)
+  refine ⟨by simp [Node.step, hg, hp], ⟨hJ2, ?_, h.np⟩, hlt hs⟩
+  intro k hk
+  rw [List.mem_append] at hk
+  rcases hk with hk | hk
+  · exact h.bnd k (List.mem_append_left _ hk)
+  · rcases mem_setThread nd.threads i _ _ hg k hk with h1 | h1
+    · exact h.bnd k (List.mem_append_right _ h1)
+    · simp only [tids, pendIds, hlt hs, List.append_nil] at h1
+      exact h.bnd k (List.mem_append_right _ (mem_thread _ i _ hg k (by simp [tids, pendIds, h1])))
 
 theorem jbm_answer (nd : Node) (a : A) (nx : Nat) (h : JBm nd a nx) (w : Wid) (ans : Ans) (hq : getL a.wq w ≠ []) :
     Node.step nd (.answer w ans) =
